@@ -2,6 +2,7 @@ package props
 
 import (
 	"fmt"
+	"github.com/tobgu/qframe/config/groupby"
 	"sort"
 	"strings"
 	"testing"
@@ -81,6 +82,22 @@ func (c newCol) data() interface{} {
 		return qframe.ConstString{Val: v, Count: c.Len}
 	case "int32s":
 		return make([]int32, c.Len)
+	case "ifaces":
+		out := make([]interface{}, c.Len)
+		for i := range out {
+			out[i] = "a" // every element a string - still not a supported column type
+		}
+		return out
+	case "int64s":
+		return make([]int64, c.Len)
+	case "float32s":
+		return make([]float32, c.Len)
+	case "bytes":
+		return make([]byte, c.Len)
+	case "uints":
+		return make([]uint, c.Len)
+	case "string-scalar":
+		return "ab"
 	case "nilval":
 		return nil
 	case "mapval":
@@ -91,7 +108,7 @@ func (c newCol) data() interface{} {
 
 func supported(form string) bool {
 	switch form {
-	case "int32s", "nilval", "mapval", "scalar":
+	case "int32s", "nilval", "mapval", "scalar", "ifaces", "int64s", "float32s", "bytes", "uints", "string-scalar":
 		return false
 	}
 	return true
@@ -219,7 +236,7 @@ func TestC08New(t *testing.T) {
 		}
 		if rapid.IntRange(0, 14).Draw(t, "unsupported") == 0 {
 			i := rapid.IntRange(0, ncols-1).Draw(t, "unsupcol")
-			cols[i].Form = rapid.SampledFrom([]string{"int32s", "nilval", "mapval", "scalar"}).Draw(t, "unsform")
+			cols[i].Form = rapid.SampledFrom([]string{"int32s", "nilval", "mapval", "scalar", "ifaces", "int64s", "float32s", "bytes", "uints", "string-scalar"}).Draw(t, "unsform")
 			reject = append(reject, "unsupported data type")
 		}
 		if rapid.IntRange(0, 14).Draw(t, "illegalname") == 0 {
@@ -445,6 +462,17 @@ func TestC08Project(t *testing.T) {
 		// a chain of 1-3 requests: later requests see the column positions left by earlier ones
 		cur, in := d.QF, d.Exp
 		var reqs []string
+		// now and then the receiver is an Aggregate result (its columns come with positions of their own): what it
+		// holds is taken as observed, the requests on it are C08's
+		if len(in.Cols) >= 2 && in.N() > 0 && rapid.IntRange(0, 4).Draw(t, "aggreceiver") == 0 {
+			ki := rapid.IntRange(1, len(in.Cols)-1).Draw(t, "aggkeypos") // a key that is not the first column
+			vi := rapid.IntRange(0, len(in.Cols)-1).Draw(t, "aggvalpos")
+			agg := d.QF.GroupBy(groupby.Columns(in.Cols[ki].Name), groupby.Null(true)).Aggregate(qframe.Aggregation{Fn: "count", Column: in.Cols[vi].Name, As: "zz-count"})
+			if aobs, err := hx.Observe(agg); err == nil && agg.Err == nil {
+				cur, in = agg, hx.WithEnumDecl(aobs, d.Exp)
+				reqs = append(reqs, fmt.Sprintf("(receiver: GroupBy(%q).Aggregate(count %q))", d.Exp.Cols[ki].Name, d.Exp.Cols[vi].Name))
+			}
+		}
 		desc := func() string { return d.String() + "requests " + strings.Join(reqs, " ; ") }
 		nreq := rapid.IntRange(1, 3).Draw(t, "nreq")
 		for step := 0; step < nreq; step++ {
